@@ -278,11 +278,11 @@ class Builder:
             fexc_entry = g._new("join", None, "finally(exc)")
             fouts = self._seq(s.finalbody, [(fexc_entry.id, "next")], ctx)
             for a, l in fouts:
-                g.edge(a, ctx.exc, "exc")          # re-raise after finally
+                g.edge(a, ctx.exc, "propagate")    # re-raise after the finally body *completed* (its effects apply)
             fgc_entry = g._new("join", None, "finally(genclose)")
             gouts = self._seq(s.finalbody, [(fgc_entry.id, "next")], ctx)
             for a, l in gouts:
-                g.edge(a, ctx.genclose, "genclose")
+                g.edge(a, ctx.genclose, "propagate")
             finals = ctx.finals + ((s.finalbody, ctx, ctx.loop_depth),)
             hctx = _Ctx(fexc_entry.id, fgc_entry.id, ctx.brk, ctx.cont, finals, ctx.loop_depth)
         else:
